@@ -15,6 +15,8 @@ and a final `SUMMARY …` line with counters. Core-only; built as a native execu
 import Std.Data.HashMap
 import Klev
 import Klev.Proto
+import Klev.Flock
+import Klev.Gen.Facts
 import Driver.Bytes
 open Klev Klev.Proto
 
@@ -33,9 +35,20 @@ structure Side where
   lastTime : Int := 0
 deriving Inhabited
 
+/-- State of the multi-handle (`lock` profile) model. -/
+structure MhState where
+  lock : LockSt := ⟨0, 0⟩
+  handles : List (String × Bool) := []      -- handle ↦ read-only?
+  next : Int := 3
+  deleted0 : Bool := false
+  digest : Option String := none
+  mutated : Bool := false                    -- a writer changed the log since the last digest
+deriving Inhabited
+
 structure DState where
   main : Side := {}
   bak  : Side := {}
+  mh   : MhState := {}
   line : Nat := 0
   diffs : Nat := 0
   viols : Nat := 0
@@ -424,6 +437,49 @@ def handle (sd : Side) (op : List String) (impl : List String) : Handled :=
     else { side := sd, model := "bad-op" }
   | _ => { side := sd, model := "bad-op" }
 
+/-- The `lock` profile: returns the new state, the model's result and L0 violations. -/
+def handleMh (m : MhState) (op impl : List String) : MhState × String × List String :=
+  let rel := Klev.Gen.openReleasesLockOnError
+  match op with
+  | ["mh.setup"] => ({}, "ok", [])
+  | "mh.open" :: k :: opts =>
+    if (m.handles.lookup k).isSome then (m, "err already", []) else
+    let ro := optBool opts "ro"
+    let fl := optBool opts "fail"
+    let (l', r) := lockStep rel m.lock (if ro then .openRO fl else .openRW fl)
+    match r with
+    | .ok => ({ m with lock := l', handles := (k, ro) :: m.handles }, "ok", [])
+    | .locked => ({ m with lock := l' }, "err locked", [])
+    | .failed => ({ m with lock := l' }, "err indexcorrupt", [])
+    | .noHandle => (m, "bad-op", [])
+  | ["mh.close", k] =>
+    match m.handles.lookup k with
+    | none => (m, "err closed", [])
+    | some ro =>
+      let (l', _) := lockStep rel m.lock (if ro then .closeRO else .closeRW)
+      ({ m with lock := l', handles := m.handles.filter (fun h => h.1 != k) }, "ok", [])
+  | ["mh.pub", k] =>
+    match m.handles.lookup k with
+    | none => (m, "err closed", [])
+    | some true => (m, "err readonly", viol (impl == ["err", "readonly"]) "ReadonlyRejects")
+    | some false => ({ m with next := m.next + 1, mutated := true }, s!"ok {m.next + 1}", [])
+  | ["mh.del", k] =>
+    match m.handles.lookup k with
+    | none => (m, "err closed", [])
+    | some true => (m, "err readonly", viol (impl == ["err", "readonly"]) "ReadonlyRejects")
+    | some false =>
+      if m.deleted0 then (m, "err notfound", [])
+      else ({ m with deleted0 := true, mutated := true }, "ok", [])
+  | ["mh.digest"] =>
+    let implD := match impl with | ["ok", d] => some d | _ => none
+    if m.mutated ∨ m.digest.isNone then
+      ({ m with digest := implD, mutated := false }, String.intercalate " " impl, [])
+    else
+      -- nothing was published or deleted through a writer: no log file may have changed
+      (m, s!"ok {m.digest.getD "?"}", viol (implD == m.digest) "NoLogFileChange")
+  | ["mh.missing"] => (m, "err other", viol (impl != ["ok"]) "MissingDirFails")
+  | _ => (m, "bad-op", [])
+
 def processLine (st : DState) (raw : String) : DState :=
   let line := raw.trimAscii.toString
   let st := { st with line := st.line + 1 }
@@ -444,6 +500,20 @@ def processLine (st : DState) (raw : String) : DState :=
       match opToks with
       | [] => st
       | op0 :: restOps =>
+        if op0.startsWith "mh." then
+          let (m', model, vs) := handleMh st.mh opToks implToks
+          let implTxt := String.intercalate " " implToks
+          let mdiff := model ≠ implTxt
+          -- exclusion itself is also an L0 fact: never two writers, never a writer with readers
+          let out := if mdiff then st.out.push s!"DIFF {st.line} {lhs} impl={implTxt} model={model}" else st.out
+          let out := vs.foldl (fun o v => o.push s!"VIOL {st.line} {v} {lhs} impl={implTxt}") out
+          let cls := match implToks with
+            | "ok" :: _ => "ok"
+            | "err" :: c :: _ => "err." ++ c
+            | _ => "?"
+          { st with mh := m', out := out, diffs := st.diffs + (if mdiff then 1 else 0), viols := st.viols + vs.length,
+                    counts := bump st.counts (op0 ++ ":" ++ cls) }
+        else
         -- backup side: `backup` snapshots the model directory; `b.<op>` acts on the backup
         if op0 = "backup" then
           let ds := match st.main.mlog with | some l => l.disk | none => st.main.disk
